@@ -176,7 +176,8 @@ def _prange_cases(tier):
         spec = E.BY_NAME[name]
         for ci, cfg in enumerate(spec.configs(tier)):
             n = len(spec.pool(cfg, tier))
-            batches = [list(range(min(n, 4))), [0, 1, 2][:n], [n - 1, 0]]
+            # incl. adjacent duplicates: an iteration that reuses what its predecessor wrote is only right in sequential order
+            batches = [list(range(min(n, 4))), [0, 1, 2][:n], [n - 1, 0], [1, 1, 2, 2][: max(2, min(n, 4))]]
             for b in batches:
                 for k in range(24):
                     yield {"spec": name, "cfg": ci, "train": 0, "batch": b, "order": k, "tier": tier}
